@@ -21,6 +21,7 @@ import (
 	"time"
 
 	"github.com/ozontech/seq-db/consts"
+	"github.com/ozontech/seq-db/frac"
 	"github.com/ozontech/seq-db/proxy/bulk"
 	"github.com/ozontech/seq-db/proxyapi"
 	"github.com/ozontech/seq-db/seq"
@@ -94,10 +95,14 @@ func actionLine(a string) string {
 type c10Expect struct {
 	reject    bool
 	stored    []string
-	ambiguous bool // a document sits exactly on the size border: either reading is accepted
+	ambiguous int // number of documents exactly on the size border: each may be stored or skipped
 }
 
-func c10Expected(c c10Case) c10Expect {
+// c10Expected is the reference reading of a body. Bit k of atLimitStored selects the reading of the k-th
+// document line that is exactly as long as the limit: stored (1) or skipped as over-size (0). (The real
+// reader's reading of such a line depends on whether the transport delivers EOF together with the last
+// bytes, so it may differ between two such lines of one body.)
+func c10Expected(c c10Case, atLimitStored int) c10Expect {
 	shapes := c10DocShapes()
 	var e c10Expect
 	actions := 0
@@ -125,7 +130,10 @@ func c10Expected(c c10Case) c10Expect {
 			continue // over-size line: skipped with its action line
 		}
 		if sh[1] != "empty" && eff == c10MaxDoc {
-			e.ambiguous = true
+			e.ambiguous++
+			if atLimitStored&(1<<(e.ambiguous-1)) == 0 {
+				continue
+			}
 		}
 		switch sh[1] {
 		case "empty":
@@ -166,7 +174,6 @@ func c10Body(c c10Case) []byte {
 func c10Run(r *vlib.Run, h http.Handler, cap *capture, c c10Case) {
 	r.Add("evaluations", 1)
 	body := c10Body(c)
-	exp := c10Expected(c)
 	cap.mu.Lock()
 	cap.docs, cap.metas, cap.calls = nil, nil, 0
 	cap.mu.Unlock()
@@ -208,21 +215,36 @@ func c10Run(r *vlib.Run, h http.Handler, cap *capture, c c10Case) {
 	}
 	ok2xx := rec.Code >= 200 && rec.Code < 300
 	detail := fmt.Sprintf("body %q\nstatus %d response %q\nstored %q", body, rec.Code, rec.Body.String(), stored)
-	if exp.ambiguous {
-		// accept either reading of a document that is exactly as long as the limit; still no corruption allowed
-		for _, d := range stored {
-			found := false
-			for _, sh := range c10DocShapes() {
-				if sh[0] == string(d) {
-					found = true
-				}
-			}
-			if !found {
-				r.Violation(sig("stored bytes are no submitted document"), c, detail)
+	type viol struct{ sig, detail string }
+	judge := func(exp c10Expect) (vs []viol) {
+		report := func(sg string, _ c10Case, d string) { vs = append(vs, viol{sg, d}) }
+		c10Judge(report, sig, exp, c, ok2xx, calls, stored, metas, rec.Body.Bytes(), detail, t0, t1)
+		return vs
+	}
+	expA := c10Expected(c, 0)
+	vs := judge(expA)
+	if expA.ambiguous > 0 && !expA.reject && len(vs) > 0 {
+		// a document exactly as long as the limit may be read either way, but the whole outcome must
+		// be the one of ONE assignment of readings to those documents
+		for m := 1; m < 1<<expA.ambiguous && len(vs) > 0; m++ {
+			if vb := judge(c10Expected(c, m)); len(vb) == 0 {
+				vs = nil
 			}
 		}
-		return
+		for i := range vs {
+			vs[i].sig += " (under every reading of the documents exactly as long as the limit)"
+		}
 	}
+	for _, v := range vs {
+		r.Violation(v.sig, c, v.detail)
+	}
+	if len(vs) == 0 && len(expA.stored) > 0 {
+		r.Distinct("nontrivial", string(body)+fmt.Sprint(c.Gzip))
+	}
+}
+
+func c10Judge(violation func(string, c10Case, string), sig func(string) string, exp c10Expect, c c10Case, ok2xx bool, calls int, stored [][]byte, metas [][]frac.MetaData, respBody []byte, detail string, t0, t1 time.Time) {
+	r := struct{ Violation func(string, c10Case, string) }{violation}
 	if exp.reject {
 		if ok2xx {
 			r.Violation(sig("malformed request accepted"), c, detail)
@@ -258,7 +280,7 @@ func c10Run(r *vlib.Run, h http.Handler, cap *capture, c c10Case) {
 		Errors bool              `json:"errors"`
 		Items  []json.RawMessage `json:"items"`
 	}
-	if err := json.Unmarshal(rec.Body.Bytes(), &resp); err != nil || len(resp.Items) != len(exp.stored) || resp.Errors {
+	if err := json.Unmarshal(respBody, &resp); err != nil || len(resp.Items) != len(exp.stored) || resp.Errors {
 		r.Violation(sig("response items"), c, fmt.Sprintf("%s\nerr=%v items=%d want %d", detail, err, len(resp.Items), len(exp.stored)))
 	}
 	// metas: one per document (no nested mapping here), sizes match, IDs distinct, time = receive time window
@@ -282,7 +304,6 @@ func c10Run(r *vlib.Run, h http.Handler, cap *capture, c c10Case) {
 				r.Violation(sig("id time is not the receive time"), c, fmt.Sprintf("%s\nmid %d window [%d,%d]", detail, mid, t0.UnixMilli(), t1.UnixMilli()))
 			}
 		}
-		r.Distinct("nontrivial", string(body)+fmt.Sprint(c.Gzip))
 	}
 }
 
@@ -364,10 +385,10 @@ func TestVerifC10(t *testing.T) {
 	}
 	// ---- (A) bodies ----
 	maxItems := 3
-	docNames := []string{"obj", "obj2", "objnest", "empty{}", "array", "string", "null", "trunc", "unquoted", "lonebrace", "emptyline", "len62", "len63", "len64", "len65", "len66", "len127", "len129"}
+	docNames := []string{"obj", "obj2", "objnest", "empty{}", "array", "string", "null", "trunc", "unquoted", "lonebrace", "emptyline", "len62", "len63", "len64", "len65", "len66", "len127", "len128", "len129"}
 	if r.Thorough() {
 		maxItems = 4
-		docNames = append(docNames, "number", "len61", "len67", "len128")
+		docNames = append(docNames, "number", "len61", "len67")
 	}
 	var bodies []c10Case
 	var rec func(cur []c10Item)
@@ -428,11 +449,11 @@ func TestVerifC10(t *testing.T) {
 	r.Sample(c10Case{Field: "ts", Format: "es", Offset: -(d + 1)})
 	ev := r.Get("evaluations")
 	r.Finish(t, "model_checking",
-		fmt.Sprintf("bodies: every sequence of <=%d (action, document) items over %d document shapes (objects incl. nested/escaped/empty, non-objects, three invalid-JSON shapes, empty line, object lines of 62..66 and 127/129 bytes around the %d-byte document/buffer limit) x {LF,CRLF} x {final newline, none}, gzip on every third; plus bad action lines at positions 0..6, an over-long action line and blank lines before actions; through proxyapi.BulkHandler (httptest) over a real bulk.Ingestor with a capturing storage client. Expected outcome from a reference reading of the items: reject (non-2xx, no store call) or the exact ordered list of stored byte strings, one store call, that many response items, distinct IDs timed inside the receive window; a document exactly as long as the limit may be read either way. time rule: 4 field names x 5 formats x 11 offsets around both drift borders through Ingestor.ProcessDocuments with a fixed request time", maxItems, len(docNames), c10MaxDoc),
+		fmt.Sprintf("bodies: every sequence of <=%d (action, document) items over %d document shapes (objects incl. nested/escaped/empty, non-objects, three invalid-JSON shapes, empty line, object lines of 62..66 and 127..129 bytes around and at twice the %d-byte document/buffer limit) x {LF,CRLF} x {final newline, none}, gzip on every third; plus bad action lines at positions 0..6, an over-long action line and blank lines before actions; through proxyapi.BulkHandler (httptest) over a real bulk.Ingestor with a capturing storage client. Expected outcome from a reference reading of the items: reject (non-2xx, no store call) or the exact ordered list of stored byte strings, one store call, that many response items, distinct IDs timed inside the receive window; a document exactly as long as the limit may be read either way (stored or skipped), but the whole outcome must be the one of one of the two readings. time rule: 4 field names x 5 formats x 11 offsets around both drift borders through Ingestor.ProcessDocuments with a fixed request time", maxItems, len(docNames), c10MaxDoc),
 		map[string]any{
 			"states":                        len(bodies),
 			"transitions":                   ev,
 			"traces_validated_against_impl": ev,
 		},
-		[]string{"the three invalid-JSON shapes are invalid under every reading (truncated object, unquoted key, lone brace)", "a document whose effective line length equals the limit is not judged (either reading accepted)"})
+		[]string{"the three invalid-JSON shapes are invalid under every reading (truncated object, unquoted key, lone brace)", "a document whose effective line length equals the limit may be stored or skipped; the outcome must match one of the two readings completely"})
 }
